@@ -65,6 +65,12 @@ func (tds *Conn) VerifChannelIds() []int {
 
 // VerifCancel cancels the context of the connection, ending the
 // reader goroutine without closing channels or transport.
+// VerifAllocChannelId hands out the next channel id the way NewChannel
+// obtains it, without the setup handshake.
+func (tds *Conn) VerifAllocChannelId() (int, error) {
+	return tds.getValidChannelId()
+}
+
 func (tds *Conn) VerifCancel() {
 	tds.ctxCancel()
 }
